@@ -713,9 +713,61 @@ def r16_11(ctx):
     return r
 
 
+# ---- R16.12: every constituent of a union / intersection is consulted ---------------------------------------------------------------
+FIRST_WINS = {"find_map", "find", "position", "first", "last", "next", "nth", "next_back", "rposition", "take", "skip", "step_by", "pop", "split_first", "split_last"}
+CONSTITUENT_ADTS = ("swc_ecma_ast::TsUnionType", "swc_ecma_ast::TsIntersectionType")
+
+
+def r16_12(ctx):
+    from ..facts import walk
+    r = Rule("R16.12", "the constituents of a union / intersection type are all consulted: no first-wins or truncating combinator (find_map, find, first, next, nth, take, ...) is applied to a `types` list",
+             "a member, event name or runtime type contributed by the second or a later constituent is silently dropped")
+    n_lists = 0
+    for fn in ctx.facts.user_hir():
+        if "resolve_type" not in fn["path"]:
+            continue
+        ids = set()
+        for n in walk(fn["body"]):
+            if n.get("k") == "PStruct" and n.get("adt") in CONSTITUENT_ADTS:
+                for f in n.get("fields", []):
+                    if f.get("name") == "types":
+                        for b in walk(f["p"]):
+                            if b.get("k") == "PBind":
+                                ids.add(b.get("id"))
+                                n_lists += 1
+            elif n.get("k") == "Field" and n.get("name") == "types" and str(n.get("e", {}).get("tya", "")).replace("&", "").replace("mut ", "").strip() in CONSTITUENT_ADTS:
+                n_lists += 1
+
+        def root(x):
+            while isinstance(x, dict):
+                if x.get("k") == "MethodCall":
+                    x = x.get("recv")
+                elif x.get("k") in ("AddrOf", "Deref", "Unary", "Paren", "DropTemps", "Cast", "Index"):
+                    x = x.get("e") or x.get("base")
+                else:
+                    break
+            return x
+        for n in walk(fn["body"]):
+            if n.get("k") == "MethodCall" and n.get("method") in FIRST_WINS:
+                rt = root(n.get("recv"))
+                if not isinstance(rt, dict):
+                    continue
+                hit = (rt.get("k") == "Path" and (rt.get("res") or {}).get("r") == "local" and rt["res"].get("id") in ids) or \
+                      (rt.get("k") == "Field" and rt.get("name") == "types" and str(rt.get("e", {}).get("tya", "")).replace("&", "").replace("mut ", "").strip() in CONSTITUENT_ADTS)
+                if hit:
+                    r.ob("%s: `.%s(..)` on the constituent list of a union / intersection" % (fn["path"], n["method"]), False, C.mloc(fn, n),
+                         "`%s` stops at / keeps only some constituents; the others never contribute" % n["method"])
+    r.ob("constituent lists of union / intersection types found in the resolver", n_lists >= 4, "visitor/src/resolve_type.rs", "%d binding(s) / field read(s) of `types`" % n_lists)
+    return r
+
+
 def rules(ctx):
     from . import c17
-    return [__import__('vjsx.rules.c10', fromlist=['x']).field_ratchet('resolved props must not depend on what was resolved before'), r16_1, r16_2, r16_3, r16_4, r16_5, r16_6, r16_7, r16_8, r16_9, r16_10, r16_11, c17.r17_4]
+    extra = []
+    if ctx.tier == "thorough":
+        from . import controls
+        extra = [controls.control_rule([("R16.12", r16_12, ["first_constituent"])])]
+    return extra + [__import__('vjsx.rules.c10', fromlist=['x']).field_ratchet('resolved props must not depend on what was resolved before'), r16_1, r16_2, r16_3, r16_4, r16_5, r16_6, r16_7, r16_8, r16_9, r16_10, r16_11, r16_12, c17.r17_4]
 
 
 EXPLANATION = (
